@@ -108,6 +108,7 @@ type Exec struct {
 	obsNames      []string
 	obsTerms      []*Node
 	crcSeen       []crcRec
+	txids         []*Node
 	yieldBudget   int
 	inYield       bool
 	bounds        map[*Node]ival
@@ -214,7 +215,9 @@ func (e *Exec) branch(c *Node) bool {
 		d := e.prefix[e.di]
 		e.di++
 		e.trace = append(e.trace, d)
-		if d == 1 {
+		if r := e.tri(c); r >= 0 && uint64(r) == d {
+			// implied by the bounds (as when the decision was first taken): not added
+		} else if d == 1 {
 			e.assume(c)
 		} else {
 			e.assume(e.tb.BNot(c))
@@ -225,13 +228,10 @@ func (e *Exec) branch(c *Node) bool {
 	e.di++
 	if r := e.tri(c); r >= 0 {
 		// implied by interval bounds of the path condition: no solver call, no fork
+		// (the condition follows from bounds already in the path condition, so
+		// it is not added to it: queries stay small)
 		e.nRangeDecided++
 		e.trace = append(e.trace, uint64(r))
-		if r == 1 {
-			e.assume(c)
-		} else {
-			e.assume(e.tb.BNot(c))
-		}
 		return r == 1
 	}
 	ft := e.feasible(c)
@@ -319,17 +319,11 @@ func (e *Exec) concretize(t *Node) uint64 {
 		} else {
 			e.di++
 			roots := append([]*Node{}, e.pc...)
-			q := e.tb.Query(append(roots, e.tb.Eq(t, t))) // make sure decls of t are present
-			p := NewPrinter(e.tb)
-			p.count(t)
-			ts := p.expr(t)
-			if len(p.defs) > 0 {
-				// term needs definitions: bind it to a fresh variable instead
-				nv := e.tb.Var(fmt.Sprintf("cz!%d", e.nvar), t.w)
-				e.nvar++
-				q = e.tb.Query(append(roots, e.tb.Eq(nv, t)))
-				ts = nv.name
-			}
+			// bind the term to a fresh variable so that everything it mentions is declared
+			nv := e.tb.Var(fmt.Sprintf("cz!%d", e.nvar), t.w)
+			e.nvar++
+			q := e.tb.Query(append(roots, e.tb.Eq(nv, t)))
+			ts := nv.name
 			e.nQueries++
 			verdict, vals, why := e.solver.Check(q, e.eng.feasTimeoutMs, []string{ts})
 			if verdict != Sat {
